@@ -93,7 +93,8 @@ func readOrder(wl *spg.WordList) []string {
 	r := spg.NewWLRecipe(1, wl)
 	var out []string
 	for j := uint32(0); j < wl.Size(); j++ {
-		o := callForced([]uint32{j}, nil, 5, r.Generate)
+		jj := j // every draw steered to alternative j, wherever the word draw sits
+		o := callForced(nil, func(int, uint32) uint32 { return jj }, 5, r.Generate)
 		if o.Pw == nil {
 			return nil
 		}
